@@ -20,6 +20,7 @@ package c07
 
 import (
 	"fmt"
+	"strconv"
 	"strings"
 
 	"pgregory.net/rapid"
@@ -325,6 +326,39 @@ func genSectionsPart(t *rapid.T, b *strings.Builder, rsize int, macros []string,
 	for _, a := range atts {
 		fmt.Fprintf(b, "%s\n", a)
 	}
+	// shared objects (attached, not necessarily used by the code): their parameters end up in the machine
+	// JSON and in the generated HDL; boundary parameters included (seed 0, depth 1, no timeout)
+	if !cluster && rapid.IntRange(0, 2).Draw(t, "withso") == 0 {
+		nextIdx := map[string]int{}
+		for k, n := 0, rapid.IntRange(1, 2).Draw(t, "nso"); k < n; k++ {
+			kind := rapid.SampledFrom([]string{"lfsr8", "lfsr8", "lfsr8", "sharedmem", "queue", "stack", "barrier", "channel"}).Draw(t, "sokind")
+			cons := kind + ":"
+			switch kind {
+			case "lfsr8":
+				cons += strconv.Itoa(rapid.SampledFrom([]int{0, 0, 256, 1, 77, 255}).Draw(t, "lfsrseed"))
+			case "sharedmem", "queue", "stack":
+				cons += strconv.Itoa(rapid.IntRange(1, 4).Draw(t, "sodepth"))
+			case "barrier":
+				cons += strconv.Itoa(rapid.SampledFrom([]int{0, 4, 100}).Draw(t, "sotimeout"))
+			}
+			name := fmt.Sprintf("so%d", k)
+			fmt.Fprintf(b, "%%meta sodef %s constraint:%s\n", name, cons)
+			want := rapid.IntRange(1, len(cps)).Draw(t, "soattached")
+			for _, ci := range rapid.Permutation(seqN(len(cps))).Draw(t, "soorder")[:want] {
+				c := cps[ci]
+				fmt.Fprintf(b, "%%meta soatt %s cp:%s, index:%d\n", name, c.name, nextIdx[c.name])
+				nextIdx[c.name]++
+			}
+		}
+	}
+}
+
+func seqN(n int) []int {
+	r := make([]int, n)
+	for i := range r {
+		r[i] = i
+	}
+	return r
 }
 
 type fragSpec struct {
